@@ -279,7 +279,7 @@ fn main() {
     // character sweep: every ASCII and 64 special non-ASCII characters as a literal in patterns and names
     {
         let chars: Vec<char> = mc_core::chars::all().into_iter().filter(|c| !"*?[]{}<>".contains(*c)).collect();
-        run.bound(format!("character sweep: {} characters in 8 pattern shapes x 10 names", chars.len()));
+        run.bound(format!("character sweep: {} characters in 8 pattern shapes x 10 names, and as candidates for 22 class/range patterns x 11 names", chars.len()));
         let mut t = Tally::new();
         for c in chars {
             let names: Vec<String> = vec![
@@ -293,6 +293,15 @@ fn main() {
             for p in &pats {
                 t.states += 1;
                 check(&mut t, p, &names);
+            }
+            // the character as a candidate for classes and ranges it is not a member of (or is)
+            let names2: Vec<String> = vec![
+                format!("{}", c), format!("a{}", c), format!("a{}1", c), format!("{}1", c), format!("a-{}", c), format!("a-{}.0", c), format!("a-1{}", c), format!("ab{}", c),
+                format!("mutt-{}", c), format!("mutt-{}.2", c), format!("mutt-1{}", c),
+            ];
+            for p in ["[0-9]", "[0-9]*", "a[0-9]*", "a-[0-9]*", "mutt-[0-9]*", "a[0-9]", "a[0-9]1", "*[0-9]", "[a-z]", "[A-Z]*", "a[a-z]", "[!0-9]", "a[!0-9]*", "a-[!a-z]*", "[0-9a-zA-Z]", "a[ -~]", "[!-~]", "ab[!a-z0-9]", "a-1[0-9]", "a-[0-9]*.0", "?[0-9]", "a?"] {
+                t.states += 1;
+                check(&mut t, p, &names2);
             }
         }
         run.merge(t);
